@@ -60,15 +60,12 @@ SPEC = {
     'otherwise exit 2); neither is ever reported as a violation',
   ],
   'model_partial': [
-    'pad_index_maps (circular_conv_formula, reflect_conv_formula, causal_conv_formula, equivariance, causality, output lengths) are '
-    'per axis and single channel; the N-d executables are tied to their index formulas at any rank (tensor_ofFn_get, padTensor_get, '
-    'convSpec_get, conv_batch_flatten_inert) but the composite convLayer = product of per-axis formulas over N spatial axes is '
-    'not yet one theorem',
     'ConvTranspose: output lengths (conv_transpose_out_len_same/_valid), the odd-number-of-periods padding and the CIRCULAR wrap-sum '
     'index formula (wrap_sum_total_odd_periods, wrap_sum_get) are proved; the one-axis scatter (direct-sum) form of '
-    'convTransposeLayer as a whole is tied by correspondence only',
-    'no theorem (correspondence only): ConvLocal patch ordering, Einsum bias-shape inference, feature_group_count, input dilation, '
-    'max/min pool, the avg_pool div_shape broadcast, dtype promotion',
+    'convTransposeLayer as a whole (incl. the transpose_kernel flip/swap) is tied by correspondence only',
+    'conv_layer_formula covers Conv / nnx.Conv (shared weights) for any number of spatial axes; ConvLocal (patch ordering) has no theorem',
+    'no theorem (correspondence only): Einsum bias-shape inference, the avg_pool div_shape broadcast (the divisor itself is proved: '
+    'avg_pool_divisor), dtype promotion',
   ],
 }
 
